@@ -96,6 +96,8 @@ func c17Build(seed int64, ci int, cs c17Case) (atlasfake.Config, [][]byte, [][]b
 				faults[nm] = atlasfake.Fault{Kind: "status", Status: code}
 			case cs.fault == "reset-before-headers":
 				faults[nm] = atlasfake.Fault{Kind: "reset"}
+			case cs.fault == "slow-33s":
+				faults[nm] = atlasfake.Fault{Kind: "slow", CutAt: 33}
 			case cs.fault == "transient-cut", cs.fault == "transient-reset", cs.fault == "transient-503":
 				// only the first authenticated request misbehaves; a second one would be served
 				faults[nm] = map[string]atlasfake.Fault{"transient-cut": {Kind: "cut", CutAt: len(z) / 2, Once: true}, "transient-reset": {Kind: "reset", Once: true}, "transient-503": {Kind: "status", Status: 503, Once: true}}[cs.fault]
